@@ -430,7 +430,7 @@ func TestC05(t *testing.T) {
 			"all five output modes on every case (about a quarter of the JSON tables carry one list column ([Float] or [String]; cells from a pool of prefix-related lists [] [1] [1,2] [1,2,3] [1,2,3,4] [1,3] [2] [2,1], so proper-prefix pairs with length gaps of 1 and >=2 are the normal case, plus twin rows that differ only in a prefix-related list cell), as ORDER BY key or payload; such tables are not printed with -o csv, which cannot print a list); oracle: exactly min(n,N) rows, sub-multiset of the full result, sorted key sequence equal to the first n keys counting duplicates individually. "+
 			"non-trivial: n=0, n>=N, duplicates straddling the cut, or n<N with duplicate rows. distinct=(query, file, modes). limit_above_join: `SELECT <every column> FROM a JOIN b ON a.k = b.k LIMIT n` (inner / LOOKUP) over two tables of 3-7 rows from a 3-value key pool, n in 0..3 or 0..N+1, top level / FROM-subquery / WITH, every output mode: exactly min(n,N) rows, each a row of the full join (multiset inclusion; stream_native consolidated); non-trivial: N>=2 and (n=0, n>=N or duplicate keys). filter_above_nested_order_limit: `SELECT cols FROM (SELECT cols FROM t ORDER BY <all projected columns> LIMIT n) s WHERE <predicate>` (or through WITH), every output mode, equal multisets with the reference evaluator (first n rows of the total order, then the filter); non-trivial: the cut drops rows and the filter drops rows of the first n. live_table_redraw: 400k-700k row inputs so that live_table redraws before the end (non-trivial when it did); the final table must hold exactly the limited, ordered rows",
 		"values are ints, NULL, quote/separator-free ASCII words and times (printed as bare RFC3339 text, compared as instants) so the table and stream_native renderings parse unambiguously; tables are decoded from the last table printed")
-	ev.Check(t, r, "limit_order_modes", ev.N(1200, 24000), func(t *rapid.T) c05Case {
+	ev.Check(t, r, "limit_order_modes", ev.N(1150, 23000), func(t *rapid.T) c05Case {
 		tbl := c05Table(t, "tab", 0)
 		c := c05Case{Table: tbl, Modes: c05Modes([]gen.TableSpec{tbl})}
 		c.N = rapid.IntRange(0, len(tbl.Rows)+2).Draw(t, "n")
@@ -439,7 +439,7 @@ func TestC05(t *testing.T) {
 		c.Retract = rapid.IntRange(0, 3).Draw(t, "retract") == 0 && len(tbl.Rows) > 0
 		return c
 	}, c05Prop)
-	ev.Check(t, r, "limit_above_join", ev.N(250, 5000), func(t *rapid.T) c05QueryCase {
+	ev.Check(t, r, "limit_above_join", ev.N(220, 4400), func(t *rapid.T) c05QueryCase {
 		tables := gen.JoinTablesWith(t, 2, gen.JoinTablesOpts{List: true, MinRows: 3})
 		for i := range tables {
 			c05Sanitise(&tables[i])
@@ -459,7 +459,7 @@ func TestC05(t *testing.T) {
 		c.Placement = rapid.SampledFrom([]string{"top", "top", "nested", "cte"}).Draw(t, "placement")
 		return c
 	}, c05QueryProp)
-	ev.Check(t, r, "filter_above_nested_order_limit", ev.N(200, 4000), func(t *rapid.T) c05QueryCase {
+	ev.Check(t, r, "filter_above_nested_order_limit", ev.N(180, 3600), func(t *rapid.T) c05QueryCase {
 		tbl := c05Table(t, "tab", 2)
 		q := gen.LimitedSubFilter(t, tbl, gen.SubFilterOpts{Plain: true}, "q")
 		return c05QueryCase{Tables: []gen.TableSpec{tbl}, Q: q, Placement: "top", Modes: c05Modes([]gen.TableSpec{tbl})}
